@@ -736,7 +736,8 @@ def search(ctx):
                 break
 
     # d. feeders: every split of lengths 1..L into <= 4 chunks (L = 40 in thorough), all modes, both directions
-    L = 40 if (hard or not ctx.quick()) else 18
+    # exhaustive up to L; lengths L+1..40 get sampled splits below
+    L = 18 if (ctx.quick() and not hard) else 26 if ctx.quick() else 32
     combos = []
     for mode in MODES:
         m = mode[0] if isinstance(mode, tuple) else mode
@@ -777,6 +778,27 @@ def search(ctx):
         if len(ctx.fails) > 8:
             break
     ctx.extra["split_sweep"] = {"max_len": L, "max_chunks": 4, "exhaustive": True}
+    # lengths L+1..40: sampled splits into <= 4 non-empty chunks
+    for n in range(L + 1, 41):
+        for (mode, d, padding) in combos:
+            m = mode[0] if isinstance(mode, tuple) else mode
+            if m in ("ECB", "CBC") and padding == "none" and n % 16:
+                continue
+            k, iv, ctr = rkey(r), riv(r, mode), rctr(r)
+            data = rbytes(r, n)
+            if d == "dec":
+                w = run_feeder(aes, bf, mode, "enc", padding, k, iv, ctr, [data])
+                data = w[1] if w[0] == "ok" else data
+            ctx.case(("search-feeder-sampled", repr(mode), d, padding, n))
+            for _ in range(ctx.budget(3, 40)):
+                chunks = rsplit(r, data, kmax=4, allow_empty=False)
+                ctx.evaluations += 1
+                why = feeder_predicate(aes, bf, mode, d, padding, k, iv, ctr, chunks)
+                if why:
+                    ctx.fail("feeder-differs-from-sp800-38a",
+                             {"mode": repr(mode), "dir": d, "padding": padding, "key": k, "iv": iv, "ctr": ctr,
+                              "chunks": chunks}, why)
+                    break
     # longer inputs, random splits incl. empty chunks
     for _ in range(ctx.budget(150, 5000) * (4 if hard else 1)):
         mode, d, padding = r.choice(combos)
